@@ -117,6 +117,7 @@ def cases(tier, seed):
     # hard links / copies whose path components concatenate to the same bytes, under every order of the input paths
     out.append({"kind": "roots", "tree": "collide"})
     out.append({"kind": "roots", "tree": "collide", "args": ["-L"]})
+    out.append({"kind": "overlap_big", "tree": "bigdir"})
     # overlapping input paths: the result may depend neither on their order nor on the size of the walking pool
     for extra in ([], ["--depth", "1"], ["--depth", "2"], ["--hidden"], ["-L"]):
         out.append({"kind": "overlap", "tree": "overlap", "extra": extra})
@@ -174,6 +175,10 @@ for i, L in enumerate((100, 4096, 4097, 12000, 16384, 16385, 20000, 65536, 70000
 def tree_of(name):
     if name == "two_devices":
         return TWO_DEVICES
+    if name == "bigdir":
+        # more entries in one size class than any per-worker chunk of a parallel pass over them
+        return [{"p": "r/d/f%04d" % i, "k": "file", "c": ["lit", "x"]} for i in range(1540)] + \
+               [{"p": "r/e/g%d" % i, "k": "file", "c": ["lit", "y"]} for i in range(3)]
     return {"seam5": SEAM_TREE_5, "seam6": SEAM_TREE_6, "multi": MULTI, "seamlinks": SEAM_TREE_LINKS, "seamodd": SEAM_TREE_ODD, "manylinks": MANY_LINKS, "collide": COLLIDE, "overlap": OVERLAP}[name]
 
 
@@ -182,6 +187,8 @@ def roots_of(name):
         return ["r1", "r2"]
     if name == "overlap":
         return ["r", "r/sub"]
+    if name == "bigdir":
+        return ["r", "r/d"]
     if name == "collide":
         return ["r/ab", "r/a", "r/e"]
     return ["r1", "r2", "r3", "r4"] if name == "multi" else ["r"]
@@ -364,6 +371,18 @@ def _evaluate(case, sc, loop_mp):
                     check("overlap:%s:%s:%s" % (" ".join(case["extra"]), " ".join(order), " ".join(spec)),
                           spec + case["extra"] + order, env0, "overlapping_roots")
                     transitions += 1
+        elif case["kind"] == "overlap_big":
+            for order in (["r", "r/d"], ["r/d", "r"], ["r", "r"], ["r/d", "r/e", "r"]):
+                for spec in (["-t", "1"], ["-t", "2"], ["-t", "3"], ["-t", "6"], ["-t", "main:2"], ["-t", "main:5"], []):
+                    n0 = len(viol)
+                    check("overlap_big:%s:%s" % (" ".join(order), " ".join(spec)), spec + order, env0, "overlapping_roots_many_entries")
+                    for v in viol[n0:]:
+                        v["detail"] = v["detail"][:300] + " ... " + v["detail"][-300:]
+                    transitions += 1
+            for l, h, paths in base:
+                if len(paths) != len(set(paths)):
+                    viol.append({"kind": "path_listed_twice", "what_varied": "nothing (plain run)",
+                                 "detail": "group of length %d lists %d paths, %d distinct" % (l, len(paths), len(set(paths)))})
         elif case["kind"] == "cache_rewrite":
             t0 = 1_650_000_000_100_000_000
             for e in tree_of(case["tree"]):
@@ -423,7 +442,7 @@ def finish(stats, tier):
     from .. import common as C2
     if C2.can_loop_mount() and not stats["outcomes"].get("mixed_devices"):
         out.append("no mixed_devices case ran")
-    for k in ("seam", "cross_seam", "threads", "roots", "config", "overlap", "stdin_child", "cache_transform"):
+    for k in ("seam", "cross_seam", "threads", "roots", "config", "overlap", "overlap_big", "stdin_child", "cache_transform"):
         if not stats["outcomes"].get(k):
             out.append("no %s case ran" % k)
     return out
